@@ -78,8 +78,13 @@ End HB.
 (* parent: pre; go w_1 .. go w_n; Wait; post      thread 0 = parent, thread i = worker i-1 *)
 Definition fj_parent (pre post : list acc) (n : nat) : list step :=
   map SAcc pre ++ map SGo (seq 1 n) ++ map SWait (seq 1 n) ++ map SAcc post.
+(* workers given by their steps (they may use channels among themselves, but start no goroutines
+   and wait for none) *)
+Definition fjs_exec (pre post : list acc) (workers : list (list step)) : exec :=
+  fj_parent pre post (List.length workers) :: workers.
+(* workers that only access memory *)
 Definition fj_exec (pre post : list acc) (workers : list (list acc)) : exec :=
-  fj_parent pre post (List.length workers) :: map (map SAcc) workers.
+  fjs_exec pre post (map (map SAcc) workers).
 Definition no_cap : string -> nat := fun _ => 0.
 
 (* workers that split [0,len) by GoroutineTaskManager.RecordRange: worker i runs body k for each k
@@ -165,12 +170,17 @@ Definition site_eqb (a b : site) : bool :=
 Definition written_paths (s : site) : list string :=
   map f_path (filter (fun f => match f_mode f with Wr => true | Rd => false end) (s_facts s)).
 Definition facts_of (s : site) (p : string) : list fact := filter (fun f => String.eqb (f_path f) p) (s_facts s).
+(* reading the slice header of a path (p != nil, len(p)) while the goroutines write its elements
+   p[i] is no conflict: such reads are set aside *)
+Definition is_direct_read (f : fact) : bool :=
+  match f_mode f, f_shape f with Rd, ShDirect => true | _, _ => false end.
 Definition uniform (fs : list fact) : bool :=
-  match fs with
+  match filter (fun f => negb (is_direct_read f)) fs with
   | [] => true
-  | f :: _ =>
+  | f :: _ as fs' =>
       match f_shape f with
-      | ShIdx | ShWorker | ShLocked _ => forallb (fun g => shape_eqb (f_shape g) (f_shape f)) fs
+      | ShIdx | ShWorker => forallb (fun g => shape_eqb (f_shape g) (f_shape f)) fs'
+      | ShLocked _ => forallb (fun g => shape_eqb (f_shape g) (f_shape f)) fs
       | _ => false
       end
   end.
@@ -186,6 +196,7 @@ Definition fact_body (f : fact) (k : nat) : list acc :=
   match f_shape f with
   | ShIdx => [mkAcc (f_mode f) (Idx (f_path f) k) []]
   | ShLocked m => [mkAcc (f_mode f) (Var (f_path f)) [m]]
+  | ShDirect => if is_direct_read f then [mkAcc Rd (Var (f_path f)) []] else []
   | _ => []
   end.
 Definition fact_epi (f : fact) (i : nat) : list acc :=
